@@ -5,6 +5,10 @@ package main
 // ops (grammar in ds.go):
 //   ds.raw  <auto|man> <r> <nc> <samples>   -> the aggregate chunks DownsampleRaw / downsampleRawLoop produce
 //   ds.read <r> <nc> <samples>              -> the five aggregates read back through the querier
+//   ds.readr <r> <nc> <mint> <maxt> <samples> -> the five aggregates read through the querier's series bounded to
+//                                              [mint, maxt] (NewPromSeriesSet(…, mint, maxt, aggr)): ranges on every chunk's
+//                                              MinTime/MaxTime and ±1, point, single-chunk, empty ranges; oracle: exactly the
+//                                              window aggregates with mint ≤ t ≤ maxt (class readback-range-differs)
 //   ds.cs   <list>|<list>|…                 -> query.chunkSeriesIterator over arbitrary chunk lists
 //                                              (malformed stream: overlapping / unordered chunks; no oracle)
 //
@@ -53,6 +57,30 @@ func execC36(c *hlib.Ctx, tok []string) string {
 		var lists [4][]pt
 		checkChunkShape(c, cs.l1, &lists)
 		checkWindows(c, cs.ts, cs.vs, cs.r1, lists)
+	case "ds.readr":
+		if !increasing(cs.ts, cs.r1) || cs.nc1 < 1 {
+			c.Count("oracle:skipped-out-of-domain")
+			return out
+		}
+		parts := strings.Split(out, ";")
+		if len(parts) != 5 {
+			c.Violation("readback-differs", "malformed read-back answer "+out)
+			return out
+		}
+		// exactly the window aggregates (the decoded sub-chunks, checked by ds.raw/ds.read) with mint ≤ t ≤ maxt
+		for k := 0; k < 4; k++ {
+			var want []pt
+			for _, ch := range cs.l1 {
+				for _, p := range ch.lists[k] {
+					if p.t >= cs.mint && p.t <= cs.maxt {
+						want = append(want, p)
+					}
+				}
+			}
+			if fmtPts(want) != parts[k] {
+				c.Violation("readback-range-differs", fmt.Sprintf("aggregate %d bounded to [%d,%d]: the querier returns %s, the window aggregates in the range are %s", k, cs.mint, cs.maxt, clip(parts[k]), clip(fmtPts(want))))
+			}
+		}
 	case "ds.read":
 		if !increasing(cs.ts, cs.r1) || cs.nc1 < 1 {
 			c.Count("oracle:skipped-out-of-domain")
@@ -94,6 +122,56 @@ func increasing(ts []int64, r int64) bool {
 		}
 	}
 	return true
+}
+
+func clip(s string) string {
+	if len(s) > 160 {
+		return s[:160] + "…"
+	}
+	return s
+}
+
+// genRanges emits ds.readr ops for one downsampled series: full range, mint / maxt exactly on every
+// chunk's MinTime / MaxTime and one off, point ranges, single-chunk ranges, empty ranges.
+func genRanges(c *hlib.Ctx, r int64, nc int, ts []int64, field string, budget int) {
+	_, vs, _ := parseSamples(field)
+	metas, _ := rawLevel("man", r, nc, ts, vs)
+	if len(metas) == 0 {
+		return
+	}
+	rr := c.R
+	lo, hi := metas[0].MinTime, metas[len(metas)-1].MaxTime
+	type rg struct {
+		a, b int64
+		tag  string
+	}
+	var all []rg
+	all = append(all, rg{lo, hi, "full"}, rg{lo - 5, hi + 5, "wider"}, rg{hi + 1, hi + 9, "after"}, rg{lo - 9, lo - 1, "before"}, rg{hi, lo, "inverted"})
+	for i, m := range metas {
+		for _, d := range []int64{-1, 0, 1} {
+			all = append(all, rg{lo, m.MinTime + d, "maxt=chunk-MinTime"}, rg{lo, m.MaxTime + d, "maxt=chunk-MaxTime"},
+				rg{m.MinTime + d, hi, "mint=chunk-MinTime"}, rg{m.MaxTime + d, hi, "mint=chunk-MaxTime"})
+		}
+		all = append(all, rg{m.MinTime, m.MaxTime, "single-chunk"}, rg{m.MinTime, m.MinTime, "point"}, rg{m.MaxTime, m.MaxTime, "point"})
+		if i+1 < len(metas) {
+			all = append(all, rg{m.MaxTime + 1, metas[i+1].MinTime - 1, "between-chunks"}, rg{m.MaxTime, metas[i+1].MinTime, "two-ends"})
+		}
+	}
+	for k := 0; k < budget && len(all) > 0; k++ {
+		j := k
+		if k >= 5 { // the first five always, then a random choice of the boundary ranges
+			j = 5 + rr.Intn(len(all)-5+1)
+			if j >= len(all) {
+				j = len(all) - 1
+			}
+		}
+		if j >= len(all) {
+			break
+		}
+		g := all[j]
+		c.Count("range:" + g.tag)
+		c.Do(fmt.Sprintf("ds.readr %d %d %d %d %s", r, nc, g.a, g.b, field), true)
+	}
 }
 
 // negativeOnly: strictly increasing timestamps, resolution > 0, and at least one timestamp < 0.
@@ -237,6 +315,9 @@ func genC36(c *hlib.Ctx) {
 		if rr.Chance(1, 4) {
 			c.Do(fmt.Sprintf("ds.read %d %d %s", r, nc, field), true)
 		}
+		if i < c.N(6, 60) {
+			genRanges(c, r, nc, ts, field, 14)
+		}
 	}
 	defer func() { c.Dist["entry:DownsampleRaw(ds.read/level 1)"] = entryDownsampleRaw }()
 	n := c.N(1200, 30000)
@@ -263,6 +344,9 @@ func genC36(c *hlib.Ctx) {
 		}
 		if rr.Chance(1, 3) {
 			c.Do(fmt.Sprintf("ds.read %d %d %s", r, nc, field), len(ts) > 0)
+		}
+		if len(ts) > 0 && len(ts) <= 400 && nc >= 1 && rr.Chance(1, 8) {
+			genRanges(c, r, nc, ts, field, 8)
 		}
 	}
 	// malformed stream (correspondence only): negative / unordered / duplicate timestamps, nc = 0, r ≤ 0 is excluded (Go panics on %0 — covered by one corpus line)
